@@ -90,6 +90,7 @@ const (
 	BRcpTwoPanickingCleanups
 	BRcpFatalAndSkipCleanups
 	BRcpThreeAbnormalCleanups
+	BRcpNilCleanup
 	numBeh
 )
 
@@ -100,7 +101,7 @@ var behNames = [...]string{"pass", "Skip", "Errorf", "Errorf;Skip", "Fail", "Fat
 	"rcp:cleanups-then-Fatalf", "rcp:cleanups-then-Skip", "rcp:cleanups-then-panic", "rcp:cleanups-then-Errorf", "rcp:Custom-with-cleanups", "rcp:Custom-skips-once", "rcp:cleanup-registered-from-goroutine", "rcp:Custom-registers-then-Fatalf", "rcp:Custom-registers-then-panics", "rcp:last-cleanup-skips", "rcp:Skip-with-Cleanup(Errorf)",
 	"Cleanup(Errorf);Skip", "Errorf;rejected-draw", "Cleanup(Skip)", "Error()", `Errorf("")`, "FailNow@D", "div-by-zero@A", "div-by-zero@B",
 	"Cleanup(Skip);Fatalf", "Cleanup(Skip);panic", "Cleanup(rejected-draw);Fatalf", "Cleanup(rejected-draw);panic", "Errorf;Fatalf@A",
-	"rcp:two-panicking-cleanups-above-a-plain-one", "rcp:Fatalf-cleanup-and-Skip-cleanup-above-plain-ones", "rcp:three-abnormal-cleanups-interleaved"}
+	"rcp:two-panicking-cleanups-above-a-plain-one", "rcp:Fatalf-cleanup-and-Skip-cleanup-above-plain-ones", "rcp:three-abnormal-cleanups-interleaved", "rcp:nil-cleanup-between-real-ones"}
 
 func (b Beh) String() string { return behNames[b] }
 
@@ -120,6 +121,8 @@ func (b Beh) Falsifies() bool {
 	switch b {
 	case BRcpTwoPanickingCleanups, BRcpFatalAndSkipCleanups, BRcpThreeAbnormalCleanups:
 		return true
+	case BRcpNilCleanup:
+		return false
 	}
 	return true
 }
@@ -679,6 +682,20 @@ func seenAt(s []KV, i int) any {
 		return s[i]
 	}
 	return "<absent>"
+}
+
+// InSearchPhase: Check is still generating fresh random test cases (no stream was re-seeded with the
+// seed of the previous one, and no buffer replay has started).
+func (e *Env) InSearchPhase() bool {
+	if len(e.Bufs) > 0 {
+		return false
+	}
+	for i := 1; i < len(e.Seeds); i++ {
+		if e.Seeds[i].Seed == e.Seeds[i-1].Seed && e.Seeds[i].InvIdx == e.Seeds[i-1].InvIdx+1 {
+			return false
+		}
+	}
+	return true
 }
 
 // Blamed returns the invocation that findBug treated as falsifying: the one that ran on the
